@@ -271,22 +271,60 @@ def _import_lib():
     return StructureSimilarity, superpose, align, interface
 
 
-def call_routine(c, paths):
+PRIORS = ['fnat_fast', 'lrmsd_fast_nocheck', 'irmsd_sql', 'raise_missing_izone', 'lrmsd_sql', 'irmsd_fast_quaternion', 'raise_chainid_kw']
+
+
+def run_priors(sim, names):
+    """earlier calls on the same object (none of them is asked to write anything); one kind raises"""
+    out = []
+    for nm in names:
+        try:
+            if nm == 'fnat_fast':
+                sim.compute_fnat_fast()
+            elif nm == 'lrmsd_fast_nocheck':
+                sim.compute_lrmsd_fast(check=False)
+            elif nm == 'irmsd_sql':
+                sim.compute_irmsd_pdb2sql()
+            elif nm == 'raise_missing_izone':
+                sim.compute_irmsd_pdb2sql(izone='no_such_file.izone')
+            elif nm == 'lrmsd_sql':
+                sim.compute_lrmsd_pdb2sql(method='quaternion')
+            elif nm == 'irmsd_fast_quaternion':
+                sim.compute_irmsd_fast(method='quaternion', cutoff=7.5)
+            elif nm == 'raise_chainid_kw':
+                sim.compute_lrmsd_pdb2sql(chainID='A')
+            out.append('ok')
+        except Exception as e:          # noqa
+            out.append(type(e).__name__)
+    return out
+
+
+def make_sim(c, paths):
+    SS, _, _, _ = _import_lib()
+    enforce = c.get('fail') == 'residues'       # residue mismatch + enforcement -> ValueError in check_residues
+    return SS(paths['decoy'], paths['ref'], enforce_residue_matching=enforce)
+
+
+def call_routine(c, paths, sim=None):
     """the real call for case c; paths: dict decoy, ref, zone, exportdir, out1 (for pairs_ref)"""
+    import pathlib
     SS, superpose, align, interface = _import_lib()
     r = c['op'][len('effects_'):]
-    enforce = c.get('fail') == 'residues'       # residue mismatch + enforcement -> ValueError in check_residues
-    sim = SS(paths['decoy'], paths['ref'], enforce_residue_matching=enforce)
+    if sim is None:
+        sim = make_sim(c, paths)
     zone = paths.get('zone') if c.get('zone', 'none') != 'none' else None
+    if zone is not None and c.get('zone_kind') == 'path':
+        zone = pathlib.Path(zone)
     exp = paths.get('exportdir') if c.get('exports', 0) else None
+    mkw = {'method': c['method']} if c.get('method') else {}
     if r == 'lrmsd_fast':
-        return sim.compute_lrmsd_fast(lzone=zone, check=c.get('check', True))
+        return sim.compute_lrmsd_fast(lzone=zone, check=c.get('check', True), **mkw)
     if r == 'irmsd_fast':
-        return sim.compute_irmsd_fast(izone=zone, check=c.get('check', True))
+        return sim.compute_irmsd_fast(izone=zone, check=c.get('check', True), **mkw)
     if r == 'lrmsd_sql':
-        return sim.compute_lrmsd_pdb2sql(exportpath=exp)
+        return sim.compute_lrmsd_pdb2sql(exportpath=exp, **mkw)
     if r == 'irmsd_sql':
-        return sim.compute_irmsd_pdb2sql(izone=zone, exportpath=exp)
+        return sim.compute_irmsd_pdb2sql(izone=zone, exportpath=exp, **mkw)
     if r == 'fnat_fast':
         return sim.compute_fnat_fast()
     if r == 'fnat_sql':
@@ -444,18 +482,34 @@ def _materialise(ctx, c, wd, seeded):
     else:
         ref = make_complex(rng, c['nA'], c['nB'], start=tuple(c.get('start', (1, 1))))
         dec = perturb(rng, ref)
-        if c.get('fail') == 'residues':
+        if c.get('fail') in ('residues', 'residues_warn'):
             dec = dec[:-1]                                 # decoy misses the last residue
         if c.get('fail') == 'chains':
             dec = [('X' if ch == dec[0][0] else ch, rs, rn, at) for ch, rs, rn, at in dec]      # first chain renamed
         open(os.path.join(wd, c['names'][0]), 'w').write(pdb_text(dec))
         open(os.path.join(wd, c['names'][1]), 'w').write(pdb_text(ref))
     paths = {'decoy': c['names'][0], 'ref': c['names'][1]}
+    lay = c.get('layout', 'rel')
+    if lay == 'subdir':                                    # inputs and zone file in sub-directories
+        os.makedirs(os.path.join(wd, 'in'))
+        os.makedirs(os.path.join(wd, 'cache'))
+        open(os.path.join(wd, 'in', 'unrelated.txt'), 'w').write('unrelated\n')
+        open(os.path.join(wd, 'cache', 'other.izone'), 'w').write('zone A1-A1\n')
+        for k in ('decoy', 'ref'):
+            os.rename(os.path.join(wd, paths[k]), os.path.join(wd, 'in', paths[k]))
+            paths[k] = os.path.join('in', paths[k])
+    elif lay == 'abs':
+        for k in ('decoy', 'ref'):
+            paths[k] = os.path.join(wd, paths[k])
     for m in c.get('missing', []):
         os.remove(os.path.join(wd, paths[m]))
     z = c.get('zone', 'none')
     if z != 'none':
         paths['zone'] = c['names'][2]
+        if lay == 'subdir':
+            paths['zone'] = os.path.join('cache', paths['zone'])
+        elif lay == 'abs':
+            paths['zone'] = os.path.join(wd, paths['zone'])
         if z == 'present':
             # a zone file as the library writes it (computed by a solo run elsewhere)
             open(os.path.join(wd, paths['zone']), 'w').write(c['zone_text'])
@@ -495,7 +549,7 @@ def zone_text_for(c):
     return ''.join(out)
 
 
-def run_once(ctx, c, seeded, tag):
+def run_once(ctx, c, seeded, tag, reuse=False):
     wd = os.path.join(ctx.tmpdir(), 'c16_%s_%s_%d' % (tag, 's' if seeded else 'e', next(_COUNTER)))
     paths = _materialise(ctx, c, wd, seeded)
     cwd0 = os.getcwd()
@@ -505,9 +559,14 @@ def run_once(ctx, c, seeded, tag):
         roles = role_map(c, paths, wd)
         zone_abs = os.path.normpath(os.path.join(wd, paths['zone'])) if paths.get('zone') else None
         preexisting = {os.path.join(wd, k) for k in before}
-        with warnings.catch_warnings():
+        import io, contextlib
+        with warnings.catch_warnings(), contextlib.redirect_stdout(io.StringIO()):
             warnings.simplefilter('ignore')
-            val, events = traced(lambda: call_routine(c, paths))
+            sim = None
+            if reuse:
+                sim = make_sim(c, paths)
+                run_priors(sim, c.get('prior', []))          # earlier calls on the same object, untraced
+            val, events = traced(lambda: call_routine(c, paths, sim))
         after = snapshot(wd)
     finally:
         os.chdir(cwd0)
@@ -535,11 +594,14 @@ def impl(ctx, c):
     a = run_once(ctx, c, False, 'a')
     b = run_once(ctx, c, True, 'b')
     c['trace'] = a['trace']                       # the Spec driver judges the observed trace
-    return {'empty': a, 'seeded': b}
+    out = {'empty': a, 'seeded': b}
+    if c.get('prior'):
+        out['reused'] = run_once(ctx, c, False, 'r', reuse=True)      # same call on an object that has been used before
+    return out
 
 
 def driver_line(c):
-    return {k: v for k, v in c.items() if k in ('op', 'check', 'zone', 'exports', 'missing', 'failstage', 'trace')}
+    return {k: v for k, v in c.items() if k in ('op', 'check', 'zone', 'exports', 'missing', 'failstage', 'intersect', 'trace')}
 
 
 def _allowed_writes(c):
@@ -555,7 +617,7 @@ def _allowed_writes(c):
 
 
 def agree_model(c, out, model):
-    for which in ('empty', 'seeded'):
+    for which in [k for k in ('empty', 'seeded', 'reused') if k in out]:
         o = out[which]
         if o['trace'] != model['trace']:
             k = next((i for i, (x, y) in enumerate(zip(o['trace'], model['trace'])) if x != y), min(len(o['trace']), len(model['trace'])))
@@ -576,7 +638,7 @@ def agree_spec(c, out, spec):
     if not spec['ok']:
         return f'action outside the footprint: {spec["bad"][:4]}'
     allowed = _allowed_writes(c)
-    for which in ('empty', 'seeded'):
+    for which in [k for k in ('empty', 'seeded', 'reused') if k in out]:
         o = out[which]
         bad = [x for x in o['created'] if x not in allowed and not x.endswith('/')]
         if bad:
@@ -593,11 +655,18 @@ def agree_spec(c, out, spec):
         return f'value depends on the directory content: empty -> {a["outcome"]} {a["value"][:80]}, pre-seeded -> {b["outcome"]} {b["value"][:80]}'
     if a['trace'] != b['trace']:
         return 'effects depend on the directory content'
+    if 'reused' in out:
+        r = out['reused']
+        if (a['outcome'], a['value']) != (r['outcome'], r['value']):
+            return f'value depends on earlier calls {c["prior"]} on the same object: fresh -> {a["outcome"]} {a["value"][:80]}, reused -> {r["outcome"]} {r["value"][:80]}'
+        if a['trace'] != r['trace']:
+            return f'effects depend on earlier calls {c["prior"]} on the same object'
     return True
 
 
 def nontrivial_key(c, out):
     return [c['op'], c.get('check', True), c.get('zone', 'none'), c.get('exports', 0), c.get('missing', []), c.get('fail'),
+            c.get('layout', 'rel'), c.get('zone_kind', 'str'), c.get('method'), bool(c.get('prior')),
             hashlib.sha1(json.dumps(out['empty']['trace']).encode()).hexdigest()[:10]]
 
 
@@ -678,6 +747,39 @@ def cases(ctx):
         for r in ('lzone', 'izone'):
             for z in ('none', 'absent', 'present'):
                 add(r, zone=z)
+        # --- blind-spot families: object reuse, zone given as Path, absolute / sub-directory names, the warn-only
+        # residue-mismatch branch, the quaternion method
+        score = ['lrmsd_fast', 'irmsd_fast', 'lrmsd_sql', 'irmsd_sql', 'fnat_fast', 'fnat_sql']
+        for r in score:
+            pri = rng.sample(PRIORS, rng.randint(1, 3))
+            kw = {}
+            if r in ('lrmsd_fast', 'irmsd_fast'):
+                kw = dict(check=rng.random() < 0.5, zone=rng.choice(['none', 'absent', 'present']))
+            elif r == 'irmsd_sql':
+                kw = dict(zone=rng.choice(['none', 'present']), exports=rng.choice([0, 2]))
+            elif r == 'lrmsd_sql':
+                kw = dict(exports=rng.choice([0, 2]))
+            add(r, prior=pri, **kw)
+        add('lrmsd_fast', check=True, zone='absent', prior=['raise_missing_izone', 'raise_chainid_kw'])
+        add('irmsd_fast', check=True, zone='present', prior=['raise_missing_izone', 'irmsd_fast_quaternion'])
+        for lay in ('abs', 'subdir'):
+            for r, kw in (('lrmsd_fast', dict(check=False, zone='absent')), ('irmsd_fast', dict(check=True, zone='absent')),
+                          ('irmsd_fast', dict(check=False, zone='present')), ('irmsd_sql', dict(zone='present', exports=2)),
+                          ('lrmsd_sql', dict(exports=2)), ('superpose', dict(exports=1)), ('align', dict(exports=1)),
+                          ('izone', dict(zone='absent')), ('fnat_fast', {})):
+                add(r, layout=lay, **kw)
+        for r in ('lrmsd_fast', 'irmsd_fast'):
+            for z in ('absent', 'present'):
+                add(r, check=rng.random() < 0.5, zone=z, zone_kind='path', layout=rng.choice(['rel', 'subdir']))
+        add('irmsd_sql', zone='present', zone_kind='path')
+        add('irmsd_sql', zone='absent', zone_kind='path')
+        add('izone', zone='absent', zone_kind='path')
+        for r, kw in (('lrmsd_fast', dict(check=True, zone='absent')), ('irmsd_fast', dict(check=True, zone='none')), ('lrmsd_sql', dict(exports=2)),
+                      ('irmsd_sql', dict(exports=2)), ('fnat_fast', {}), ('fnat_sql', {}), ('superpose', dict(exports=1))):
+            add(r, fail='residues_warn', intersect=(r == 'superpose'), **kw)
+        for r, kw in (('lrmsd_fast', dict(check=True, zone='absent')), ('irmsd_fast', dict(check=False, zone='present')),
+                      ('lrmsd_sql', dict(exports=2)), ('irmsd_sql', dict(zone='none', exports=2))):
+            add(r, method='quaternion', **kw)
     if ctx.thorough:
         for r, kw in (('lrmsd_fast', dict(check=True, zone='absent')), ('irmsd_fast', dict(check=True, zone='absent')),
                       ('irmsd_fast', dict(check=True, zone='present')), ('lrmsd_sql', dict(exports=2)), ('irmsd_sql', dict(zone='present', exports=2)),
